@@ -67,6 +67,13 @@ def run_entries(C, runner, entries, env_extra=None):
     log(f"[{C.pid}] real generator + generated code on {len(payload)} trees: {time.time() - t0:.1f}s")
     for k, e in enumerate(entries):
         e['result'] = res.get(k, {'driver_error': 'missing'})
+        if e['result'].get('import_error') and e.get('jobs'):
+            # an accepted tree whose generated package cannot be imported: nothing of it could be exercised
+            if C.pid in ('C18', 'C20'):
+                C.violation(f"tree '{e['name']}' was accepted but the generated package cannot be imported: {e['result']['import_error']}",
+                            dict(unit='generated package', input=dict(tree=e['name'], xml=tree_xml(e['tree']))))
+            else:
+                C.broken.append(dict(kind='correspondence', stream='import', msg=f"tree {e['name']}: generated package not importable: {e['result']['import_error'][:300]}"))
         if e['name'].startswith('mini-eo') and '+' not in e['name'] and e['result'].get('accepted') is False:
             # the hand-written corpus is meant to be valid: a rejection is a defect of the corpus or of the generator
             C.violation(f"corpus tree '{e['name']}' was rejected by the generator: {e['result'].get('error')}",
